@@ -212,6 +212,11 @@ func (g *Gen) quad() string {
 	return strings.Join([]string{f32(cx), f32(cy), f32(cz), f32(ex), "0", f32(ez), "0"}, ",")
 }
 
+// oddFloat: values a grid of metres does not expect
+func (g *Gen) oddFloat() string {
+	return []string{"NaN", "+Inf", "-Inf", "3e38", "-1e30", "1e9", "-5000", "0", "-0", "1e-40", "-2.5"}[g.rnd.Intn(11)]
+}
+
 func (g *Gen) validReceipt() (r, h, s []byte) {
 	text := make([]byte, 1+g.rnd.Intn(10))
 	for i := range text {
@@ -331,19 +336,56 @@ func (g *Gen) Request(c int) *wire.Req {
 	case "quadSample":
 		n := g.rnd.Intn(4)
 		for i := 0; i < n; i++ {
-			r.Quads = append(r.Quads, g.quad())
+			q := g.quad()
+			if g.rnd.Intn(12) == 0 { // what a careless or hostile client leaves out or fills in
+				switch g.rnd.Intn(5) {
+				case 0:
+					q = "!"
+				case 1:
+					q = "!c," + q
+				case 2:
+					q = "!e," + q
+				default:
+					f := strings.Split(q, ",")
+					f[g.rnd.Intn(6)] = g.oddFloat()
+					q = strings.Join(f, ",")
+				}
+			}
+			r.Quads = append(r.Quads, q)
 		}
 	case "groundPlane":
 		x := float64(g.rnd.Intn(65)-32) * 0.25
 		z := float64(g.rnd.Intn(65)-32) * 0.25
-		r.Geo = strings.Join([]string{f32(x), "5", f32(z), f32(x), "-5", f32(z)}, ",")
+		f := []string{f32(x), "5", f32(z), f32(x), "-5", f32(z)}
+		switch g.rnd.Intn(10) {
+		case 0: // slanted
+			f[3], f[5] = f32(x+float64(g.rnd.Intn(41)-20)), f32(z+float64(g.rnd.Intn(41)-20))
+		case 1:
+			f[g.rnd.Intn(6)] = g.oddFloat()
+		}
+		r.Geo = strings.Join(f, ",")
+		if g.rnd.Intn(25) == 0 {
+			r.Geo = []string{"!", "!1," + r.Geo, "!2," + r.Geo, "!0," + r.Geo}[g.rnd.Intn(4)]
+		}
 	case "region":
-		// a box that covers the whole grid (other boxes belong to the dagaz harness, see C20/C08)
+		// mostly a box that covers the whole grid, so that the answer lists every stored plane
 		x0 := -100 - float64(g.rnd.Intn(33))*0.5
 		z0 := -100 - float64(g.rnd.Intn(33))*0.5
 		x1 := 100 + float64(g.rnd.Intn(40))*0.5
 		z1 := 100 + float64(g.rnd.Intn(40))*0.5
-		r.Geo = strings.Join([]string{f32(x0), "0", f32(z0), f32(x1), "0", f32(z1)}, ",")
+		f := []string{f32(x0), "0", f32(z0), f32(x1), "0", f32(z1)}
+		switch g.rnd.Intn(10) {
+		case 0: // a box somewhere, possibly beside the grid or inside out
+			for _, i := range []int{0, 2, 3, 5} {
+				f[i] = f32(float64(g.rnd.Intn(161) - 80))
+			}
+		case 1:
+			f[[]int{0, 2, 3, 5}[g.rnd.Intn(4)]] = g.oddFloat()
+		}
+		r.Geo = strings.Join(f, ",")
+		if g.rnd.Intn(25) == 0 {
+			r.Geo = []string{"!1," + r.Geo, "!2," + r.Geo, "!0," + r.Geo}[g.rnd.Intn(3)]
+		}
 	case "debugInfo":
 	case "unknown":
 		r.N1 = []uint32{6, 44, 99, 150, 250, 306, 400, 1000}[g.rnd.Intn(8)]
